@@ -18,6 +18,7 @@ import (
 	"strconv"
 	"strings"
 	"sync"
+	"sync/atomic"
 	"testing"
 
 	"github.com/fabiolb/fabio/config"
@@ -212,6 +213,88 @@ func TestVerifC02Hostile(t *testing.T) {
 // A has glob hosts, B has only plain ones; every probe has a route in both
 const c02TableA = "route add A1 /foo http://a1:80/\nroute add A2 / http://a2:80/\nroute add A3 h.com/ http://a3:80/\nroute add A4 *.g.com/ http://a4:80/\nroute add A5 *.com:8443/x http://a5:80/"
 const c02TableB = "route add B1 /foo/bar http://b1:80/\nroute add B2 / http://b2:80/\nroute add B3 h.com/x http://b3:80/\nroute add B4 x.g.com/ http://b4:80/\nroute add B5 y.com:8443/x http://b5:80/"
+
+// c02Big appends 70 hosts with nested paths, added shortest first (the order the sort has to repair), to a swap
+// table: a table is complete - sorted included - when it is installed.  Probes 6 and 7 ask for the deepest path
+// of two of these hosts.
+func c02Big(v, text string) string {
+	var b strings.Builder
+	b.WriteString(text)
+	for i := 0; i < 70; i++ {
+		deep := v + "9"
+		if i == 7 {
+			deep = v + "6"
+		} else if i == 63 {
+			deep = v + "7"
+		}
+		fmt.Fprintf(&b, "\nroute add %s0 big%d.test/ http://%s-r%d:80/", v, i, strings.ToLower(v), i)
+		fmt.Fprintf(&b, "\nroute add %s0 big%d.test/x http://%s-x%d:80/", v, i, strings.ToLower(v), i)
+		fmt.Fprintf(&b, "\nroute add %s big%d.test/x/y http://%s-y%d:80/", deep, i, strings.ToLower(v), i)
+	}
+	return b.String()
+}
+
+// TestVerifC02BigInstall: a published table is COMPLETE.  A writer installs large tables (215 routes, 70 hosts with
+// nested paths given shortest first) alternately; every reader loads the register once and asks the loaded
+// table for the deepest paths: the answer must be the one the finished table of that version gives.
+func TestVerifC02BigInstall(t *testing.T) {
+	installs := verifx.EnvInt("VERIF_WRITES", 30)
+	old := GetTable()
+	defer SetTable(old)
+	texts := map[string]string{"A": c02Big("A", c02TableA), "B": c02Big("B", c02TableB)}
+	first, err := newTableFromText(texts["A"])
+	if err != nil {
+		t.Fatal(err)
+	}
+	SetTable(first)
+	var stop int32
+	var wg sync.WaitGroup
+	var lookups int64
+	for g := 0; g < 8; g++ {
+		wg.Add(1)
+		go func(g int) {
+			defer wg.Done()
+			gc := NewGlobCache(8)
+			for atomic.LoadInt32(&stop) == 0 {
+				tb := GetTable()
+				v := "A"
+				if _, isA := tb["h.com"]; isA {
+					if tb["h.com"][0].Targets[0].Service[:1] == "B" {
+						v = "B"
+					}
+				}
+				for _, p := range []struct{ host, want string }{{"big7.test", "6"}, {"big63.test", "7"}, {fmt.Sprintf("big%d.test", 10+g), "9"}} {
+					req := &http.Request{Host: p.host, URL: &url.URL{Path: "/x/y/z"}, Header: http.Header{}}
+					tg := tb.Lookup(req, "", Picker["rr"], Matcher["prefix"], gc, false)
+					atomic.AddInt64(&lookups, 1)
+					if tg == nil || tg.Service != v+p.want {
+						verifx.Fail(map[string]any{"host": p.host}, map[string]any{"sub": "swap", "clause": "published-table-incomplete"},
+							"a lookup on the table it had just loaded (version %s, 215 routes) for %s/x/y/z was answered by %v; the finished table answers %s%s (most specific path)", v, p.host, tg, v, p.want)
+					}
+				}
+			}
+		}(g)
+	}
+	for i := 0; i < installs; i++ {
+		v := "B"
+		if i%2 == 1 {
+			v = "A"
+		}
+		p, stack := verifx.Safely(func() {
+			tb, err := newTableFromText(texts[v])
+			if err != nil {
+				panic(err)
+			}
+			SetTable(tb)
+		})
+		if p != nil {
+			verifx.Fail(map[string]any{"v": v}, map[string]any{"sub": "swap", "clause": "build-panic"}, "building a table of 215 routes panicked: %v\n%s", p, stack)
+		}
+	}
+	atomic.StoreInt32(&stop, 1)
+	wg.Wait()
+	verifx.Summary(map[string]any{"installs": installs, "lookups": atomic.LoadInt64(&lookups)})
+}
 
 func TestVerifC02Swap(t *testing.T) {
 	writes := verifx.EnvInt("VERIF_WRITES", 60)
